@@ -691,6 +691,7 @@ def _get_simple_equalities(lits: list[AST]) -> list[AST]:
             and len(lit.atom.guards) == 1
             and lit.atom.term.ast_type == ASTType.Variable
             and lit.atom.guards[0].term.ast_type == ASTType.Variable
+            and "_" not in (lit.atom.term.name, lit.atom.guards[0].term.name)  # anonymous variables are all different
         ):
             if (lit.sign == Sign.NoSign and lit.atom.guards[0].comparison == ComparisonOperator.Equal) or (
                 lit.sign == Sign.Negation and lit.atom.guards[0].comparison == ComparisonOperator.NotEqual
@@ -790,6 +791,7 @@ def replace_assignments(stm: AST) -> AST:
             and lit.atom.ast_type == ASTType.Comparison
             and len(lit.atom.guards) == 1
             and lit.atom.term.ast_type == ASTType.Variable
+            and lit.atom.term.name != "_"
             and not has_interval(lit.atom.guards[0].term)
         ):
             if (lit.sign == Sign.NoSign and lit.atom.guards[0].comparison == ComparisonOperator.Equal) or (
